@@ -47,7 +47,7 @@ class FalsyObj(Obj):
 def execute(case):
     import anyio
     from anyio import Event, create_task_group, get_cancelled_exc_class
-    from asphalt.core import (AsyncResourceError, Component, ComponentStartError, Context, ResourceNotFound, add_resource,
+    from asphalt.core import (AsyncResourceError, Component, ComponentStartError, Context, ResourceNotFound, add_resource, context_teardown,
                               add_resource_factory, add_teardown_callback, get_resource, start_component, start_service_task)
 
     prog, sched = case["prog"], list(case["hist"])
@@ -207,7 +207,43 @@ def execute(case):
                 async def prepare(self):
                     await body("prep", "prepare", prog["sp"][c - 1])
                 ns["prepare"] = prepare
-            if prog["hs"][c - 1]:
+            raw = (prog["hs"][c - 1] and case["backend"] == "asyncio" and (case.get("seed", 0) + c) % 3 == 1
+                   and all(op["k"] == "noop" for op in prog["ss"][c - 1]))
+            if raw:
+                # start() written with @context_teardown, suspended directly on a bare asyncio future (asphalt's timeout report
+                # has to walk through an async generator to describe where such a component is stuck)
+                @context_teardown
+                async def start(self):
+                    import asyncio
+                    log(ev="start.begin", c=c)
+                    ident = [c, "start"]
+                    add_teardown_callback(lambda: log(ev="td", id=ident))
+                    log(ev="reg", id=ident)
+                    for ip, op in enumerate(prog["ss"][c - 1], start=1):
+                        if not state.get("over"):
+                            fut = asyncio.get_running_loop().create_future()
+
+                            class FutGate:
+                                def set(self_inner, fut=fut):
+                                    if not fut.done():
+                                        fut.set_result(None)
+                            at_gate[c] = FutGate()
+                            try:
+                                await fut
+                            except C:
+                                at_gate.pop(c, None)
+                                log(ev="cancelled", c=c)
+                                raise
+                        log(ev="step", c=c)
+                        if fc == c and fphase == "starting" and ip == len(prog["ss"][c - 1]):
+                            x = make_boom("start")
+                            state["exc"] = x
+                            log(ev="fail", c=c, phase="starting", exc="boom")
+                            raise x
+                    log(ev="start.end", c=c)
+                    yield
+                ns["start"] = start
+            elif prog["hs"][c - 1]:
                 async def start(self):
                     await body("start", "start", prog["ss"][c - 1])
                 ns["start"] = start
